@@ -62,6 +62,14 @@ META = {
         technique=PBT + "; oracle: frame snapshot, monotone widths, area inequalities against the harness's own free-segment areas, reference max-over-regions for the congestion factors",
         text="expandCellsToDensity, expandCellsByFactor and computeCellExpansion on generated circuits (mixed heights, fixed cells, zero-size cells, obstructed rows) with generated targets, margins, caps, factors and overlapping congestion maps; every clause of the property is an inequality or equality checked against areas computed from the C15 free-space oracle.",
         note="Trusted: slack terms derived in DESIGN.md (one truncated unit per cell, 1e-5 relative for float accumulation)."),
+    "C07": dict(
+        technique="coverage-guided fuzzing (libFuzzer on the choice tape, structure-aware through the shared decoder) + property-based testing (rapidcheck), on two builds (assertions on / NDEBUG); oracle: process survival under ASan + UBSan (incl. float-cast-overflow) + assert(), std::exception accepted, 3x-confirmed single-case hang = violation",
+        text="The whole flow (every stage and their compositions, with and without callbacks) is run on circuits biased to nanometre magnitudes and degenerate shapes, with every accepted parameter set of the moderate box; any assertion abort, sanitizer report, non-std exception or reproducible hang is a violation. Each confirmed root cause was repaired ('fix:' commits) or recorded and excluded by construction so that campaigns continue behind it. Absence is not established: executions and coverage are what the evidence reports.",
+        note="Trusted: clang 14 sanitizer runtimes. Resource bounds of the harness (bin count, steps, reordering window) are declared in the evidence. Known finding c07-unanchored-far-from-origin excluded and counted."),
+    "C20": dict(
+        technique="property-based testing (Hypothesis) of the export -> read round trip with an independent Python reference HPWL, + exhaustive parse of every binding in module.cpp (programs)",
+        text="Generated circuits are exported by a C++ tool built from the current tree and read back by the package's own reader against a pure-Python stand-in of the compiled module; every field the property lists must be reproduced and the wirelength must be the same before and after. All bindings of module.cpp (enum values, attributes, properties, methods, lambdas) are enumerated and must name the C++ entity of the same name.",
+        note="Trusted: the stand-in module mirrors only names and plain containers; Hypothesis seeded by VERIF_SEED. The compiled module itself cannot be built in this sandbox."),
     "C09": dict(
         technique="property-based testing (rapidcheck tapes, libFuzzer in the thorough tier) + exhaustive orientation x offset table; oracle: 2x2-matrix reference geometry and from-scratch one-axis HPWL",
         text="Generated circuits with all eight orientations, pins inside/on/outside the outline, repeated cells, empty and single-pin nets; hpwl(), the placed-size and pin-offset getters and both incremental topologies (all cells / arbitrary ordered subsets, histories of up to 40 updates) are compared with an independent reference after every step. The single-cell orientation x offset table is enumerated completely. A sample outside that table.",
@@ -90,7 +98,7 @@ META = {
 
 
 def main():
-    claimed = [p for p in ALL if p in check.PROPS and os.path.exists(os.path.join(VERIF, "harness", "prop_%s.cpp" % p)) and p in META]
+    claimed = [p for p in ALL if p in check.PROPS and (os.path.exists(os.path.join(VERIF, "harness", "prop_%s.cpp" % p)) or check.PROPS[p].get("python")) and p in META]
     try:
         hooks = subprocess.run(["git", "-C", "/repo", "log", "--format=%H %s"], capture_output=True, text=True).stdout.splitlines()
         hook_commits = [l.split()[0] for l in hooks if " hook:" in l or l.split(" ", 1)[1].startswith("hook:")]
